@@ -13,8 +13,9 @@ tie-break are library behaviour: the theorems hold for *whatever* simplex contai
 for *whichever* minimiser is returned.
 
 Hypotheses (each has a satisfiability `example` at the end):
-`StrictInc ax` — knots strictly increasing; `InDomain axes p` — `p` between the first and last
-knot of every axis; `ZeroMean D ds` — the dither vectors add up to zero (true of the symmetric
+`StrictMono ax` — knots strictly increasing *or* strictly decreasing, independently per axis (what
+SciPy accepts and the real code passes on unchanged); `InDomain axes p` — `p` between the first
+and last knot of every axis, in either order; `ZeroMean D ds` — the dither vectors add up to zero (true of the symmetric
 dithers `make_uniform_grid(n, 1)`, see `dithers1_sum_zero`).
 -/
 set_option linter.unusedSimpArgs false
@@ -47,7 +48,7 @@ per-axis knots) is exact on affine functions** at every point of the domain — 
 array of `c0 + Σ c_k x_k` on the grid. -/
 theorem multilinear_affine_exact (ext : Bool) (axes : List (List K)) (c0 : K) (cs p : List K)
     (hc : cs.length = axes.length) (hp : p.length = axes.length)
-    (hax : ∀ ax ∈ axes, 2 ≤ ax.length ∧ StrictInc ax)
+    (hax : ∀ ax ∈ axes, 2 ≤ ax.length ∧ StrictMono ax)
     (hin : ext = true ∨ InDomain axes p) :
     interpFlat ext axes (sampleAffine axes c0 cs) p = some (affine c0 cs p) :=
   interpFlat_affine ext axes c0 cs p hc hp hax hin
@@ -76,7 +77,7 @@ separated coordinates `[x-axis, y-axis, …]`, field values in hcipy order (x fa
 `[x, y, …]`; the wrapper reverses axes and point, the values need no re-ordering. -/
 theorem linearSeparated_affine_exact (ext : Bool) (sep : List (List K)) (c0 : K) (c p : List K)
     (hc : c.length = sep.length) (hp : p.length = sep.length)
-    (hax : ∀ ax ∈ sep, 2 ≤ ax.length ∧ StrictInc ax)
+    (hax : ∀ ax ∈ sep, 2 ≤ ax.length ∧ StrictMono ax)
     (hin : ext = true ∨ InDomain sep.reverse p.reverse) :
     linearSeparated ext sep (sampleAffine sep.reverse c0 c.reverse) p
       = some (affine c0 c.reverse p.reverse) := by
@@ -86,7 +87,7 @@ theorem linearSeparated_affine_exact (ext : Bool) (sep : List (List K)) (c0 : K)
 
 /-- **1-D: the interpolant returns the sample value at every knot**, for arbitrary values: for
 every pair (knot, value) of the table, interpolating at the knot gives the value. -/
-theorem interp1_hits_samples (ext : Bool) :
+theorem interp1_hits_samples_ascending (ext : Bool) :
     ∀ (knots vals : List K) (first : Bool), 2 ≤ knots.length → vals.length = knots.length →
       StrictInc knots → ∀ xv ∈ List.zip knots vals,
         interpAxis ext 1 (fun v => v.head?) first knots vals xv.1 = some xv.2 := by
@@ -102,7 +103,7 @@ theorem interp1_hits_samples (ext : Bool) :
       rcases hxv with rfl | hxv
       · have hc : (((ext && first) || decide (a ≤ a)) && ((ext && rest.isEmpty) || decide (a ≤ b))) = true := by
           simp [le_of_lt hab]
-        simp only [interpAxis]
+        simp only [interpAxis, inLo_inc hab, inHi_inc hab]
         rw [hc]
         simp [(lerp_hits_samples a b va vb (ne_of_lt hab)).1]
       · have hx : xv.1 ∈ b :: rest := by
@@ -123,7 +124,7 @@ theorem interp1_hits_samples (ext : Bool) :
               exact absurd this (lt_irrefl _)
           have hc : (((ext && first) || decide (a ≤ xv.1)) && ((ext && rest.isEmpty) || decide (xv.1 ≤ b))) = true := by
             simp [heq, le_of_lt hab]
-          simp only [interpAxis]
+          simp only [interpAxis, inLo_inc hab, inHi_inc hab]
           rw [hc, heq, hv]
           simp [(lerp_hits_samples a b va vb (ne_of_lt hab)).2]
         · have hne : rest ≠ [] := by
@@ -137,9 +138,23 @@ theorem interp1_hits_samples (ext : Bool) :
             | nil => exact absurd rfl hne
             | cons c r => simp
           have := ih (vb :: vals') false hlen (by simpa using hv) hs.2 xv (by simpa using hxv)
-          simp only [interpAxis]
+          simp only [interpAxis, inLo_inc hab, inHi_inc hab]
           rw [hc]
           simpa using this
+
+/-- … and the same for knots in either direction (ascending or descending). -/
+theorem interp1_hits_samples (ext : Bool) (knots vals : List K) (first : Bool)
+    (h2 : 2 ≤ knots.length) (hv : vals.length = knots.length) (hs : StrictMono knots) :
+    ∀ xv ∈ List.zip knots vals,
+      interpAxis ext 1 (fun v => v.head?) first knots vals xv.1 = some xv.2 := by
+  rcases hs with hs | hs
+  · exact interp1_hits_samples_ascending ext knots vals first h2 hv hs
+  · intro xv hxv
+    rw [interpAxis_neg ext 1 _ knots vals first xv.1 hs]
+    have := interp1_hits_samples_ascending ext (knots.map fun t => -t) vals first (by simpa using h2)
+      (by simpa using hv) (strictDec_neg _ hs) (-xv.1, xv.2)
+      (by rw [List.zip_map_left]; exact List.mem_map.mpr ⟨xv, hxv, rfl⟩)
+    simpa using this
 
 /-! ## barycentric interpolation -/
 
@@ -212,9 +227,8 @@ theorem nearest_defined (pts : List (List K)) (p : List K) (h : pts ≠ []) :
       obtain ⟨j, d⟩ := r
       by_cases hle : dist2 q p ≤ d <;> simp [hle]
 
-/-- **Nearest neighbour on separated grids, one axis**: the knot picked (SciPy's rule, ties to
-the lower index) is a closest knot. -/
-theorem nearestAxis_returns_closest : ∀ (knots : List K) (x : K) (i : Nat), StrictInc knots →
+/-- nearest neighbour along one *ascending* axis: the knot picked is a closest knot -/
+theorem nearestAxis_returns_closest_ascending : ∀ (knots : List K) (x : K) (i : Nat), StrictInc knots →
     nearestAxis knots x = some i →
     ∃ h : i < knots.length, ∀ y ∈ knots, (knots[i] - x) * (knots[i] - x) ≤ (y - x) * (y - x) := by
   intro knots
@@ -226,9 +240,10 @@ theorem nearestAxis_returns_closest : ∀ (knots : List K) (x : K) (i : Nat), St
     | [], _, h => simp [nearestAxis] at h
     | b :: rest, hs, h =>
       have hab : a < b := hs.1
+      rw [nearestAxis_inc_cons hab] at h
       by_cases hc : a ≤ x ∧ x ≤ b
       · have hc' : (decide (a ≤ x) && decide (x ≤ b)) = true := by simp [hc.1, hc.2]
-        simp only [nearestAxis, hc', if_true] at h
+        simp only [hc', if_true] at h
         by_cases hm : (x - a) + (x - a) ≤ b - a
         · simp only [hm, if_true, Option.some.injEq] at h
           subst h
@@ -261,7 +276,7 @@ theorem nearestAxis_returns_closest : ∀ (knots : List K) (x : K) (i : Nat), St
             exact mul_self_le_mul_self (by linarith [hc.2]) (by linarith)
       · have hc' : (decide (a ≤ x) && decide (x ≤ b)) = false := by
           simp only [Bool.and_eq_false_iff, decide_eq_false_iff_not]; tauto
-        simp only [nearestAxis, hc', Bool.false_eq_true, if_false] at h
+        simp only [hc', Bool.false_eq_true, if_false] at h
         cases hr : nearestAxis (b :: rest) x with
         | none => rw [hr] at h; simp at h
         | some j =>
@@ -283,10 +298,90 @@ theorem nearestAxis_returns_closest : ∀ (knots : List K) (x : K) (i : Nat), St
             exact mul_self_le_mul_self (by linarith) (by linarith)
           · exact hmin y hy
 
+/-- nearest neighbour along one *descending* axis (SciPy flips it; ties go to the smaller
+coordinate): the knot picked is a closest knot -/
+theorem nearestAxis_returns_closest_descending : ∀ (knots : List K) (x : K) (i : Nat), StrictDec knots →
+    nearestAxis knots x = some i →
+    ∃ h : i < knots.length, ∀ y ∈ knots, (knots[i] - x) * (knots[i] - x) ≤ (y - x) * (y - x) := by
+  intro knots
+  induction knots with
+  | nil => intro x i _ h; simp [nearestAxis] at h
+  | cons a knots ih =>
+    intro x i hs h
+    match knots, hs, h with
+    | [], _, h => simp [nearestAxis] at h
+    | b :: rest, hs, h =>
+      have hab : b < a := hs.1
+      rw [nearestAxis_dec_cons hab] at h
+      by_cases hc : x ≤ a ∧ b ≤ x
+      · have hc' : (decide (x ≤ a) && decide (b ≤ x)) = true := by simp [hc.1, hc.2]
+        simp only [hc', if_true] at h
+        by_cases hm : (x - b) + (x - b) ≤ a - b
+        · -- closer to (or tie with) `b`: index 1
+          simp only [hm, if_true, Option.some.injEq] at h
+          subst h
+          refine ⟨by simp, ?_⟩
+          intro y hy
+          simp only [List.getElem_cons_succ, List.getElem_cons_zero]
+          have e : (b - x) * (b - x) = (x - b) * (x - b) := by ring
+          rw [e]
+          rcases List.mem_cons.mp hy with rfl | hy
+          · exact mul_self_le_mul_self (by linarith [hc.2]) (by linarith)
+          · have hyb : y ≤ b := by
+              rcases List.mem_cons.mp hy with rfl | hy'
+              · exact le_refl _
+              · exact le_of_lt (knot_lt b rest hs.2 y hy')
+            have e2 : (y - x) * (y - x) = (x - y) * (x - y) := by ring
+            rw [e2]
+            exact mul_self_le_mul_self (by linarith [hc.2]) (by linarith)
+        · simp only [hm, if_false, Option.some.injEq] at h
+          subst h
+          refine ⟨by simp, ?_⟩
+          intro y hy
+          simp only [List.getElem_cons_zero]
+          push Not at hm
+          rcases List.mem_cons.mp hy with rfl | hy
+          · exact le_refl _
+          · have hyb : y ≤ b := by
+              rcases List.mem_cons.mp hy with rfl | hy'
+              · exact le_refl _
+              · exact le_of_lt (knot_lt b rest hs.2 y hy')
+            have e2 : (y - x) * (y - x) = (x - y) * (x - y) := by ring
+            rw [e2]
+            exact mul_self_le_mul_self (by linarith [hc.1]) (by linarith)
+      · have hc' : (decide (x ≤ a) && decide (b ≤ x)) = false := by
+          simp only [Bool.and_eq_false_iff, decide_eq_false_iff_not]; tauto
+        simp only [hc', Bool.false_eq_true, if_false] at h
+        cases hr : nearestAxis (b :: rest) x with
+        | none => rw [hr] at h; simp at h
+        | some j =>
+          rw [hr] at h
+          simp only [Option.map_some, Option.some.injEq] at h
+          subst h
+          obtain ⟨hj, hmin⟩ := ih x j hs.2 hr
+          have hxb : x ≤ b := nearestAxis_le_head rest b x j hs.2 hr
+          refine ⟨by simpa using hj, ?_⟩
+          intro y hy
+          simp only [List.getElem_cons_succ]
+          rcases List.mem_cons.mp hy with rfl | hy
+          · have h1 := hmin b (by simp)
+            refine le_trans h1 ?_
+            exact mul_self_le_mul_self (by linarith) (by linarith)
+          · exact hmin y hy
+
+/-- **Nearest neighbour on separated grids, one axis** (ascending or descending): the knot picked
+is a closest knot. -/
+theorem nearestAxis_returns_closest (knots : List K) (x : K) (i : Nat) (hs : StrictMono knots)
+    (h : nearestAxis knots x = some i) :
+    ∃ h : i < knots.length, ∀ y ∈ knots, (knots[i] - x) * (knots[i] - x) ≤ (y - x) * (y - x) := by
+  rcases hs with hs | hs
+  · exact nearestAxis_returns_closest_ascending knots x i hs h
+  · exact nearestAxis_returns_closest_descending knots x i hs h
+
 /-- **Nearest neighbour on separated grids, any dimension**: the grid point assembled from the
 per-axis choices is at minimal squared distance among *all* grid points. -/
 theorem nearest_separated_returns_closest : ∀ (axes : List (List K)) (p : List K) (idx : List Nat),
-    (∀ ax ∈ axes, StrictInc ax) → nearestIdx axes p = some idx →
+    (∀ ax ∈ axes, StrictMono ax) → nearestIdx axes p = some idx →
     ∀ q ∈ tensorPts axes, dist2 (pointAt axes idx) p ≤ dist2 q p := by
   intro axes
   induction axes with
@@ -498,9 +593,20 @@ theorem nearestUnstructuredOld_wrong :
 
 /-! ## non-vacuity of the hypotheses -/
 
-example : StrictInc ([0, 1, 3] : List Rat) ∧ InDomain [[0, 1, 3], [(-1 : Rat), 2]] [2, 0] := by
-  refine ⟨⟨by norm_num, by norm_num, trivial⟩, ⟨0, 3, rfl, rfl, by norm_num, by norm_num⟩,
-    ⟨-1, 2, rfl, rfl, by norm_num, by norm_num⟩, trivial⟩
+example : StrictInc ([0, 1, 3] : List Rat) ∧ StrictDec ([2, -1] : List Rat) ∧
+    InDomain [[0, 1, 3], [(2 : Rat), -1]] [2, 0] := by
+  refine ⟨⟨by norm_num, by norm_num, trivial⟩, ⟨by norm_num, trivial⟩,
+    ⟨0, 3, rfl, rfl, Or.inl ⟨by norm_num, by norm_num⟩⟩,
+    ⟨2, -1, rfl, rfl, Or.inr ⟨by norm_num, by norm_num⟩⟩, trivial⟩
+
+/-- mixed axis directions, concretely: `1 + 2x + 3y` on `x = [0,1,2,4]` ascending, `y = [3,1,0]`
+descending, linear and nearest -/
+example :
+    linearSeparated false [[0, 1, 2, 4], [3, 1, 0]] (sampleAffine [[3, 1, 0], [0, 1, 2, 4]] 1 [3, 2]) [(3 / 2 : Rat), 2]
+      = some 10 ∧
+    nearestSeparated [[0, 1, 2, 4], [3, 1, 0]] (sampleAffine [[3, 1, 0], [0, 1, 2, 4]] 1 [3, 2]) [(3 / 2 : Rat), 2]
+      = some 6 := by
+  constructor <;> decide +kernel
 
 example : ZeroMean 2 (tensorPts [dithers1 2, dithers1 3] : List (List Rat)) := by
   constructor
